@@ -78,7 +78,7 @@ func main() {
 			scs = []scenario{rs}
 		}
 	} else {
-		scs = canonical()
+		scs = append(canonical(), canonicalShapes()...)
 		n := c.N(300, 8000)
 		base := c.Rand("scenarios")
 		for i := 0; i < n; i++ {
@@ -101,6 +101,9 @@ func main() {
 		}
 		if os.Getenv("C09_ONLY_REAL") != "" {
 			scs = nil
+		}
+		if os.Getenv("C09_ONLY_SHAPES") != "" { // development
+			scs, reals = canonicalShapes(), nil
 		}
 		if os.Getenv("C09_ONLY_CANONICAL") != "" {
 			scs = nil
@@ -145,6 +148,13 @@ func main() {
 			"probe_fills":                         200,
 			"filtered_launches":                   50,
 
+			// the shipped CU shapes (r9nano: 4x10 slots, 256 VGPRs per lane; mi300a: 4x8 slots, 512 VGPRs per lane; 3200 SGPRs, 64 KiB LDS)
+			"shape_r9nano_scenarios":                                           60,
+			"shape_mi300a_scenarios":                                           40,
+			"shape_r9nano_simds_filled_to_refusal":                             150,
+			"shape_mi300a_simds_filled_to_refusal":                             120,
+			"shape_r9nano_groups_placed_with_more_than_64_vgprs":               300,
+			"shape_mi300a_groups_placed_with_more_than_64_vgprs":               600,
 			"real_emu_scenarios":                                               40,
 			"real_emu_wgs_mapped":                                              2000,
 			"real_emu_launch_responses":                                        200,
@@ -160,7 +170,7 @@ func main() {
 			"real_timing_probe_fills":                                          50,
 		},
 	}
-	if replay != "" || os.Getenv("C09_ONLY_FAKE") != "" || os.Getenv("C09_ONLY_REAL") != "" || os.Getenv("C09_ONLY_CANONICAL") != "" {
+	if replay != "" || os.Getenv("C09_ONLY_FAKE") != "" || os.Getenv("C09_ONLY_REAL") != "" || os.Getenv("C09_ONLY_CANONICAL") != "" || os.Getenv("C09_ONLY_SHAPES") != "" {
 		opts.MinNontrivial = 0
 		opts.MinCounters = nil
 	}
